@@ -359,7 +359,7 @@ attribute is none (the element is skipped). -/
 def attrKey (H : List HashTok → Nat) (attr : List Char) (v : Value) : Option Key :=
   match getFromPath H v attr with
   | some .none => Option.none
-  | some x => x.asKey
+  | some x => x.asKeyK
   | Option.none => Option.none
 
 /-- does `v` belong to the group a probe key `q` selects? -/
@@ -446,7 +446,7 @@ theorem groupGo_spec (H : List HashTok → Nat) (attr : List Char) (l : List Val
     (∀ q, (Map.get q g).getD [] = (Map.get q g0).getD [] ++ l.filter (inGroup H attr q)) ∧
     (NoDupKeys g0 → NoDupKeys g) ∧
     ((∀ e ∈ g0, e.2 ≠ []) → ∀ e ∈ g, e.2 ≠ []) ∧
-    (∀ v ∈ l, ∃ x, getFromPath H v attr = some x ∧ (x = .none ∨ x.asKey.isSome = true)) := by
+    (∀ v ∈ l, ∃ x, getFromPath H v attr = some x ∧ (x = .none ∨ x.asKeyK.isSome = true)) := by
   induction l generalizing g0 with
   | nil =>
     simp only [groupGo, GroupRes.ok.injEq] at h; subst h
